@@ -61,19 +61,63 @@ class PlanModel:
         if not (isinstance(loop.target, ast.Tuple) and all(isinstance(e, ast.Name) for e in loop.target.elts)):
             raise AnalysisError(f"{fn.ident}: plan loop target is not a tuple of names")
         self.targets = [e.id for e in loop.target.elts]
+        # the plan list: a run of "full" blocks produced once per index of a range (list comprehension, or a loop that
+        # appends one tuple per index) followed by conditionally appended "last" blocks
         ds = [d for d in self.flow.reaching(self.list_name, self.cfg.node_for(loop)) if d.kind == "assign"]
-        if len(ds) != 1 or not isinstance(ds[0].value, ast.ListComp):
-            raise AnalysisError(f"{fn.ident}: plan list is not built by a single list comprehension")
-        self.comp = ds[0].value
-        self.comp_stmt = ds[0].stmt
-        if not isinstance(self.comp.elt, ast.Tuple) or len(self.comp.elt.elts) != len(self.targets):
-            raise AnalysisError(f"{fn.ident}: plan comprehension element does not match the loop target")
-        gen = self.comp.generators[0]
-        self.comp_var = gen.target.id if isinstance(gen.target, ast.Name) else None
-        self.comp_range = gen.iter
+        if len(ds) != 1:
+            raise AnalysisError(f"{fn.ident}: plan list has {len(ds)} initial definitions")
+        init = ds[0]
+        n = len(self.targets)
+        self.full_elts = None
+        self.lasts: list[tuple[list[ast.AST], ast.AST]] = []
+
+        def as_tuple(e: ast.AST, at: ast.AST) -> list[ast.AST] | None:
+            ex = e if isinstance(e, ast.Tuple) else self.flow.expand(e, self.cfg.node_for(at), depth=1)
+            return list(ex.elts) if isinstance(ex, ast.Tuple) and len(ex.elts) == n else None
+
+        if isinstance(init.value, ast.ListComp):
+            comp = init.value
+            if not isinstance(comp.elt, ast.Tuple) or len(comp.elt.elts) != n or len(comp.generators) != 1 or comp.generators[0].ifs:
+                raise AnalysisError(f"{fn.ident}: plan comprehension element does not match the loop target")
+            gen = comp.generators[0]
+            self.full_elts = list(comp.elt.elts)
+            self.comp_stmt = init.stmt
+            self.comp_var = gen.target.id if isinstance(gen.target, ast.Name) else None
+            self.comp_range = gen.iter
+        elif not (isinstance(init.value, ast.List) and not init.value.elts or
+                  isinstance(init.value, ast.Call) and dotted(init.value.func) == "list" and not init.value.args):
+            raise AnalysisError(f"{fn.ident}: plan list is not built from a comprehension or an empty list")
         apps = [c for c in calls_in_body(fn.node) if isinstance(c.func, ast.Attribute) and c.func.attr == "append"
-                and dotted(c.func.value) == self.list_name]
-        self.appends = apps
+                and dotted(c.func.value) == self.list_name and len(c.args) == 1]
+        other = [c for c in calls_in_body(fn.node) if isinstance(c.func, ast.Attribute) and dotted(c.func.value) == self.list_name
+                 and c.func.attr in ("extend", "insert", "pop", "remove", "clear", "reverse", "sort", "__setitem__")]
+        if other:
+            raise AnalysisError(f"{fn.ident}: plan list is modified by `{norm(other[0])[:50]}`")
+        self.appends = []
+        for a in apps:
+            elts = as_tuple(a.args[0], a)
+            if elts is None:
+                raise AnalysisError(f"{fn.ident}: `{norm(a)[:50]}` does not append a {n}-tuple")
+            cur = parent(a)
+            encl = None
+            while cur is not None and cur is not fn.node:
+                if isinstance(cur, (ast.For, ast.While)):
+                    encl = cur
+                    break
+                cur = parent(cur)
+            if encl is None:
+                self.lasts.append((elts, a))
+                self.appends.append(a)
+            elif isinstance(encl, ast.For) and self.full_elts is None and isinstance(encl.target, ast.Name) and not encl.orelse and \
+                    self.cfg.dominates(self.cfg.node_for(a), self.cfg.node_for(encl.body[-1])):
+                self.full_elts = elts
+                self.comp_stmt = parent(a) if isinstance(parent(a), ast.stmt) else a
+                self.comp_var = encl.target.id
+                self.comp_range = encl.iter
+            else:
+                raise AnalysisError(f"{fn.ident}: plan blocks are appended inside a loop the model does not understand")
+        if self.full_elts is None:
+            raise AnalysisError(f"{fn.ident}: no run of full blocks found in the plan list")
         self.guards = [s for s in body_walk(fn.node) if isinstance(s, ast.If) and always_raises(s.body)]
         self.divmods = [s for s in body_walk(fn.node) if isinstance(s, ast.Assign) and isinstance(s.value, ast.Call)
                         and dotted(s.value.func) == "divmod" and not pm_in(loop, s)]
@@ -93,10 +137,9 @@ class PlanModel:
 
     def target_values(self, idx: int) -> list[tuple[str, ast.AST, ast.AST]]:
         """Possible (origin, expr, context stmt) for loop target idx."""
-        out = [("full", self.comp.elt.elts[idx], self.comp_stmt)]
-        for a in self.appends:
-            if a.args and isinstance(a.args[0], ast.Tuple) and len(a.args[0].elts) == len(self.targets):
-                out.append(("last", a.args[0].elts[idx], a))
+        out = [("full", self.full_elts[idx], self.comp_stmt)]
+        for elts, a in self.lasts:
+            out.append(("last", elts[idx], a))
         return out
 
 
@@ -306,10 +349,16 @@ def check_reader(prog: Program, res: Result, fn: FuncInfo, kind: str) -> None:
         norm(v) == norm(pm.comp_range.args[0]) for o, v, s in idx_vals if o == "last") and \
         isinstance(pm.comp_range, ast.Call) and dotted(pm.comp_range.func) == "range" and len(pm.comp_range.args) == 1
     nchs = "self.header.nchans"
+    # look through temporaries that only name the yielded count / view
+    ycount = flow.expand(ycount, yn, stop=set(pm.targets))
+    if isinstance(ydata, ast.Name):
+        dd = flow.reaching(ydata.id, yn)
+        if len(dd) == 1 and dd[0].kind == "assign" and isinstance(dd[0].value, (ast.Subscript, ast.Call)) and pm_in(pm.loop, dd[0].stmt):
+            ydata = dd[0].value
     if kind == "fil":
         okcount = isinstance(ycount, ast.BinOp) and isinstance(ycount.op, ast.FloorDiv) and norm(ycount.left) == size_t and norm(ycount.right) == nchs
         okdata = isinstance(ydata, ast.Subscript) and isinstance(ydata.slice, ast.Slice) and ydata.slice.lower is None and \
-            ydata.slice.upper is not None and norm(ydata.slice.upper) == size_t and ydata.slice.step is None
+            ydata.slice.upper is not None and norm(flow.expand(ydata.slice.upper, yn, stop=set(pm.targets))) == size_t and ydata.slice.step is None
         # the view must be of the buffer that the read/unpack fills
         okbuf = False
         if okdata and isinstance(ydata.value, ast.Name):
@@ -384,7 +433,7 @@ def check_reader(prog: Program, res: Result, fn: FuncInfo, kind: str) -> None:
         tnames = [norm(e) for e in dm.targets[0].elts] if isinstance(dm.targets[0], ast.Tuple) else []
         if len(tnames) == 2 and norm(pm.comp_range.args[0]) != tnames[0]:
             problems.append("the number of full blocks is not the divmod quotient")
-    full_size = pm.poly(pm.comp.elt.elts[si], pm.comp_stmt, stop={"gulp", "skipback"})
+    full_size = pm.poly(pm.full_elts[si], pm.comp_stmt, stop={"gulp", "skipback"})
     if full_size != gsym * unit:
         problems.append(f"full blocks have {full_size.canon()} elements, expected gulp*{unit.canon()}")
     lasts = [(v, s) for o, v, s in pm.target_values(si) if o == "last"]
@@ -423,10 +472,14 @@ def check_reader(prog: Program, res: Result, fn: FuncInfo, kind: str) -> None:
             okdec = any(isinstance(s, ast.AugAssign) and norm(s.target) == q and isinstance(s.op, ast.Sub) and norm(s.value) == "1" for s in body) or \
                 any(isinstance(s, ast.Assign) and norm(s.targets[0]) == q and norm(s.value) in (f"{q} - 1",) for s in body)
             env_ = PolyEnv()
+
+            def val(s_):
+                return env_.poly(flow.expand(s_.value, cfg.node_for(s_), stop={q, r, "nsamps", "gulp", "skipback"}))
+
             okrem = any(isinstance(s, ast.Assign) and norm(s.targets[0]) == r and
-                        env_.poly(s.value) == env_.poly(ast.parse(f"nsamps - {q} * (gulp - skipback)", mode="eval").body) for s in body) or \
+                        val(s) == env_.poly(ast.parse(f"nsamps - {q} * (gulp - skipback)", mode="eval").body) for s in body) or \
                 any(isinstance(s, ast.AugAssign) and norm(s.target) == r and isinstance(s.op, ast.Add) and
-                    env_.poly(s.value) == env_.poly(ast.parse("gulp - skipback", mode="eval").body) for s in body)
+                    val(s) == env_.poly(ast.parse("gulp - skipback", mode="eval").body) for s in body)
             if not (okdec and okrem):
                 problems.append(f"the correction does not move one full block into the remainder ({q} -= 1; {r} = nsamps - {q}*(gulp-skipback))")
             if not loops_ and not half_guard:
